@@ -289,6 +289,8 @@ def h_commit_during_pack(at1: int, at2: int) -> None:
     c08.h_pack_race(at1, at2, 1, 'commit', True)
 
 
+from zverif.harness.c13 import h_directed_undo_pack as _blob_undo_pack  # noqa: E402
+
 HARNESSES = [
     Harness('pack_file', h_pack_file,
             decides='FileStorage.pack to any time: all snapshots at/after it identical for reachable objects (data, revision '
@@ -301,6 +303,13 @@ HARNESSES = [
                   '_redundant_pack'],
             quick=dict(timeout=170, shards=shards(gc=[True, False], variant=['G1'], reopen=[True]) + shards(gc=[True], variant=['G2', 'G3', 'G4', 'G5'], reopen=[False])),
             thorough=dict(timeout=900, shards=shards(gc=[True, False], variant=['G1', 'G0', 'G2', 'G3', 'G4', 'G5'], reopen=[True, False]))),
+    Harness('blob_undo_pack', _blob_undo_pack,
+            decides='FileStorage with a blob directory: write/commit/undo chains (incl. one undo transaction undoing the two newest '
+                    'transactions of a blob: two records that share one file) followed by a pack to now or to an earlier time - every '
+                    'revision the pack keeps still has its blob file with the bytes committed (C13 directed_undo_pack)',
+            symbolic='4 booleans (undo / further write / second undo / double undo), second-blob selector, final step selector', bounds='programs of 5-11 steps; real scratch directory',
+            oracle='blob revision model', code=['fspack.FileStoragePacker.copyDataRecords (blob branch)', 'FileStorage._remove_blob_files_tagged_for_removal_during_pack'],
+            quick=dict(timeout=400, shards=shards(kind=['file'])), thorough=dict(timeout=700, shards=shards(kind=['file', 'proxy']))),
     Harness('pack_mapping', h_pack_mapping,
             decides='MappingStorage.pack to any time preserves every snapshot at/after it for reachable objects; repeat pack harmless',
             symbolic='stop (8 free bytes)', bounds='history G0 (8 txns)', oracle='differential against the pre-pack model', pure_python=True,
